@@ -1,16 +1,16 @@
 #!/bin/bash
-# usage: tools/confirm_seed.sh <PROP> <N> [srcdir]   — confirm a seeded change delivered by a sub-agent and keep it
+# usage: tools/confirm_seed.sh <PROP> <N> [srcdir] [kept-index]   — confirm a seeded change delivered by a sub-agent and keep it
 # under /verif/seeded/<PROP>-<N>/ (patch.diff, demo, meta.json). Works in a scratch worktree of /repo HEAD.
 set -u
-P=$1; N=$2; SRC=${3:-/tmp/seed/$P/OUT}
-DST=/verif/seeded/$P-$N
-W=$(mktemp -d /tmp/confirm-$P-$N-XXXX)
+P=$1; N=$2; SRC=${3:-/tmp/seed/$P/OUT}; K=${4:-$N}
+DST=/verif/seeded/$P-$K
+W=$(mktemp -d /tmp/confirm-$P-$K-XXXX)
 LOG=$W.log
 git -C /repo worktree add -q --detach "$W" HEAD || exit 2
 cleanup(){ git -C /repo worktree remove --force "$W" 2>/dev/null; rm -rf "$W"; }
 trap cleanup EXIT
 cd "$W"
-export CARGO_NET_OFFLINE=true CARGO_TARGET_DIR=/tmp/confirm-target
+export CARGO_NET_OFFLINE=true CARGO_TARGET_DIR=${CONFIRM_TARGET:-/tmp/confirm-target}
 res(){ echo "$1" | tee -a "$LOG"; }
 [ -f "$SRC/patch$N.diff" ] || { res "no patch$N.diff"; exit 2; }
 DEMO_KIND=rs
@@ -34,7 +34,7 @@ if [ $B -eq 0 ] && [ $D0 -eq 0 ] && [ $D1 -ne 0 ] && [ $S -eq 0 ] && [ "$PASSED"
   if [ $DEMO_KIND = rs ]; then cp "$SRC/demo$N.rs" "$DST/demo.rs"; else cp "$SRC/demo$N.diff" "$DST/demo.diff"; fi
   [ -f "$SRC/README.md" ] && cp "$SRC/README.md" "$DST/README.agent.md"
   cat > "$DST/meta.json" <<EOM
-{"property": "$P", "seed": "$P-$N", "origin": "independent sub-agent given only the property text and a scratch worktree",
+{"property": "$P", "seed": "$P-$K", "wave": ${WAVE:-0}, "origin": "independent sub-agent given only the property text and a scratch worktree",
  "confirmed": {"repo_head": "$(git -C /repo rev-parse --short HEAD)", "compiles": true, "existing_suite_passed": $PASSED,
    "demo_without_patch": "pass", "demo_with_patch": "fail", "demo_cmd": "$DEMO_CMD"},
  "ran": ["git apply patch.diff", "cargo build --offline", "$DEMO_CMD (with and without the patch)", "cargo test --offline (35 tests, patch applied)"],
@@ -42,5 +42,5 @@ if [ $B -eq 0 ] && [ $D0 -eq 0 ] && [ $D1 -ne 0 ] && [ $S -eq 0 ] && [ "$PASSED"
 EOM
   res "KEPT $DST"
 else
-  res "REJECTED $P-$N"
+  res "REJECTED $P-$K"
 fi
